@@ -125,24 +125,21 @@ func runCheck(prop, tier, repo, verif string, verbose, noReplay bool, evOut stri
 	var obls []*Obligation
 	var vcOf map[*Obligation]*VC
 	var perFunc map[string]int
+	var resolveErrs []error
 	// attempt generates and discharges everything under the current choice of alternative contracts
 	attempt := func() (failing int, what string, err error) {
 		names := functionsFor(P, prop)
 		var errs []error
 		vcs, errs = buildVCs(P, names)
-		if len(errs) > 0 {
-			var ss []string
-			for _, e := range errs {
-				ss = append(ss, e.Error())
-			}
-			return 0, "contract-resolves", fmt.Errorf("%s", strings.Join(ss, " | "))
-		}
+		// a contract that no longer resolves against the tree is reported below; the other
+		// functions and the bounded stand-in are still checked
+		resolveErrs = errs
 		if lv, err := lemmaVC(P, prop); err != nil {
 			return 0, "lemma", err
 		} else if lv != nil {
 			vcs = append(vcs, lv)
 		}
-		if len(vcs) == 0 {
+		if len(vcs) == 0 && len(errs) == 0 {
 			return 0, "no-functions", fmt.Errorf("no function under contract serves %s", prop)
 		}
 		obls = nil
@@ -306,6 +303,27 @@ func runCheck(prop, tier, repo, verif string, verbose, noReplay bool, evOut stri
 		fmt.Printf("VIOLATION property=%s replay=%s obligation=%s result=%s at=%s%s\n", prop, rp, o.Name, o.Result, o.Pos, suffix)
 	}
 
+	for i, e := range resolveErrs {
+		violations++
+		exit = 1
+		rp := writeReplayFile(verif, prop, fmt.Sprintf("engine#contract-resolves#%d", i+1), map[string]any{"obligation": "engine#contract-resolves", "error": e.Error(),
+			"reason": "the contract of this function cannot be generated against the current tree (function restructured, renamed or outside the supported subset): its obligations are undecided"})
+		fmt.Printf("VIOLATION property=%s replay=%s obligation=engine#contract-resolves %s no-failing-input-found\n", prop, rp, oneLine(e.Error()))
+	}
+
+	// bounded stand-ins for code the contracts cannot reach (reported as bounded, never as proved)
+	boundedNotes := []string{}
+	if br := runBounded(repo, verif, prop, tier, scratch); br != nil {
+		boundedNotes = append(boundedNotes, br.note)
+		for i, v := range br.violations {
+			violations++
+			exit = 1
+			rp := writeReplayFile(verif, prop, fmt.Sprintf("bounded#%s#%d", br.test, i+1), map[string]any{"obligation": "bounded#" + br.test, "property": prop,
+				"replay": "confirmed on the real code (the bounded run executes /repo's Refresh)", "failing_input": v, "output": firstLines(br.output, 40)})
+			fmt.Printf("VIOLATION property=%s replay=%s obligation=bounded#%s %s\n", prop, rp, br.test, v)
+		}
+	}
+
 	// evidence
 	var funcs []string
 	assumed := map[string]bool{}
@@ -355,7 +373,7 @@ func runCheck(prop, tier, repo, verif string, verbose, noReplay bool, evOut stri
 			"obligation_results":       oblRecords,
 			"integer_semantics":        "mathematical Int with explicit two's-complement wrap per static Go type",
 			"contract_variants":        variantNote,
-			"bounded":                  []string{},
+			"bounded":                  boundedNotes,
 		}}
 	writeJSON(evPath, ev)
 	if verbose || exit != 0 {
@@ -534,6 +552,7 @@ func runReplay(repo, verif, fn string, inputs map[string]any, scratch string) (b
 	ov := map[string]any{"Replace": map[string]string{
 		filepath.Join(pkgDir, "zz_govc_replay_test.go"):      src,
 		filepath.Join(pkgDir, "zz_govc_replay_util_test.go"): filepath.Join(verif, "replay", "log_replay_util_test.go"),
+		filepath.Join(pkgDir, "zz_govc_bounded_test.go"):     filepath.Join(verif, "replay", "log_bounded_test.go"),
 	}}
 	ovFile := filepath.Join(scratch, "overlay_"+mangle(fn)+".json")
 	writeJSON(ovFile, ov)
@@ -551,4 +570,60 @@ func runReplay(repo, verif, fn string, inputs map[string]any, scratch string) (b
 	out, _ := cmd.CombinedOutput()
 	s := string(out)
 	return strings.Contains(s, "REPLAY: confirmed"), firstLines(s, 30)
+}
+
+type boundedResult struct {
+	test       string
+	note       string
+	violations []string
+	output     string
+}
+
+// runBounded runs TestGovcBounded_<prop> of /verif/replay/log_bounded_test.go (if there is one) against
+// the working tree, injected with -overlay.
+func runBounded(repo, verif, prop, tier, scratch string) *boundedResult {
+	src := filepath.Join(verif, "replay", "log_bounded_test.go")
+	raw, err := os.ReadFile(src)
+	test := "TestGovcBounded_" + prop
+	if err != nil || !strings.Contains(string(raw), "func "+test+"(") {
+		return nil
+	}
+	ov := map[string]any{"Replace": map[string]string{
+		filepath.Join(repo, "zz_govc_bounded_test.go"):     src,
+		filepath.Join(repo, "zz_govc_replay_test.go"):      filepath.Join(verif, "replay", "log_replay_test.go"),
+		filepath.Join(repo, "zz_govc_replay_util_test.go"): filepath.Join(verif, "replay", "log_replay_util_test.go"),
+	}}
+	ovFile := filepath.Join(scratch, "overlay_bounded.json")
+	writeJSON(ovFile, ov)
+	cmd := exec.Command("go", "test", "-overlay", ovFile, "-vet=off", "-count=1", "-timeout", "600s", "-v", "-run", "^"+test+"$", ".")
+	cmd.Dir = repo
+	env := []string{}
+	for _, e := range os.Environ() {
+		if strings.HasPrefix(e, "GOSUMDB=") || strings.HasPrefix(e, "GOTOOLCHAIN=") || strings.HasPrefix(e, "GOFLAGS=") {
+			continue
+		}
+		env = append(env, e)
+	}
+	env = append(env, "GOFLAGS=-mod=mod", "GOPROXY=off", "GOVC_BOUNDED="+tier)
+	cmd.Env = env
+	out, _ := cmd.CombinedOutput()
+	res := &boundedResult{test: test, output: string(out)}
+	summary := ""
+	for _, l := range strings.Split(string(out), "\n") {
+		if strings.HasPrefix(l, "BOUNDED-VIOLATION: ") {
+			res.violations = append(res.violations, strings.TrimPrefix(l, "BOUNDED-VIOLATION: "))
+		} else if strings.HasPrefix(l, "BOUNDED: ") {
+			summary = strings.TrimPrefix(l, "BOUNDED: ")
+		}
+	}
+	if summary == "" && len(res.violations) == 0 {
+		// the run itself broke (does not compile against the tree, panicked, timed out)
+		why := "the bounded run did not complete"
+		if strings.Contains(string(out), "panic:") {
+			why = "the bounded run panicked"
+		}
+		res.violations = append(res.violations, why+": "+firstLines(string(out), 12))
+	}
+	res.note = "BOUNDED (not a proof, not counted in obligations/discharged): " + test + " executes the real Refresh: " + summary
+	return res
 }
